@@ -94,3 +94,42 @@ Definition term_of_defcheck (d : defcheck) : term :=
   match d with
   | DSkipped => tcon "Skipped" [] | DOk => tcon "Ok" [] | DReject bad => tcon "Rej" [term_of_bad bad]
   end.
+
+(* ---------- admissibility of the names / tokens a case carries (what the harness can print as Python) ---------- *)
+Definition is_lower (c : ascii) : bool := let n := nat_of_ascii c in Nat.leb 97 n && Nat.leb n 122.
+Definition is_upper (c : ascii) : bool := let n := nat_of_ascii c in Nat.leb 65 n && Nat.leb n 90.
+Definition ident_ok (s : pystr) : bool :=
+  match s with
+  | c :: r => (is_lower c || is_upper c) && forallb (fun x => is_lower x || is_upper x || is_digit x) r
+  | [] => false
+  end.
+(* repr of a non-integral float of the pool: digits ".5" *)
+Definition float_ok (s : pystr) : bool :=
+  match rev s with
+  | f :: d :: (_ :: _) as r => Ascii.eqb f "5" && Ascii.eqb d "." && forallb is_digit r
+  | _ => false
+  end.
+Definition enum_ok (c m : pystr) : bool :=
+  (nm c "Color" && (nm m "RED" || nm m "GREEN")) || (nm c "Shape" && nm m "SQ").
+Definition enum_cls_ok (c : pystr) : bool := nm c "Color" || nm c "Shape".
+Definition printable (c : ascii) : bool := let n := nat_of_ascii c in Nat.leb 32 n && Nat.leb n 126.
+Fixpoint wf_val (known : list pystr) (v : val) : bool :=
+  match v with
+  | XFloat s => float_ok s
+  | XStr s => forallb printable s
+  | XEnum c m => enum_ok c m
+  | XNode c => existsb (pystr_eqb c) known
+  | XTuple l | XList l | XFset l => forallb (wf_val known) l
+  | _ => true
+  end.
+Fixpoint wf_names (known : list pystr) (t : ty) : bool :=
+  match t with
+  | TNode c | TFwd c => existsb (pystr_eqb c) known
+  | TEnum c => enum_cls_ok c
+  | TLiteral vs => forallb (wf_val known) vs
+  | TNewType a | TTupleVar a => wf_names known a
+  | TUnion ts | TTuple ts | TGen _ ts => forallb (wf_names known) ts
+  | _ => true
+  end.
+Fixpoint nodup_str (l : list pystr) : bool :=
+  match l with [] => true | x :: r => negb (existsb (pystr_eqb x) r) && nodup_str r end.
